@@ -1,6 +1,11 @@
 import CharsetProof.Lemmas.Utf8
 import CharsetProof.Props.C17
+import CharsetProof.Props.C17b
 open Charset
+#print axioms C17_strict_is_codec
+#print axioms C17_utf8_strict_events
+#print axioms utf16_strict_events
+#print axioms C17_lossy_equals_strict_on_clean_input
 #print axioms C17_test_only
 #print axioms C17_chunk_mode_irrelevant
 #print axioms C17_chunk_mode_single_byte
